@@ -600,6 +600,34 @@ JUnsupported(ev) ==
   ELSE IF ev.dispatched = FALSE THEN "machinery_no_dispatch"     \* numpy rejected the synthesised arguments before dispatching
   ELSE ExpectRaise(ev, "FeatureNotSupported")
 
+\* ------------------------------------------ growth: API no listed property names
+\* (events carry prop = "GROW"; rejections are reported as notes by every check that runs the catalogue)
+\* polynomial_from_roots(roots): the monic polynomial prod (q0 - r) in the default indeterminate
+JFromRoots(ev, reg) ==
+  LET r == reg[ev.args[1]].d
+      x == ETerm(NOne, MVar(0))
+      want == EProdSeq([k \in 1..Len(r.el) |-> ESub(x, r.el[k])])
+  IN IF Len(r.shape) # 1 THEN "ok" ELSE ExpectDen(ev, "poly", DScalar(want))
+\* apply_along_axis(sum / prod, axis, a) is the reduction over that axis
+JApplyAlongAxis(ev, reg) ==
+  LET a == reg[ev.args[1]].d
+      ax == NormAxis(ev.axis, Len(a.shape))
+  IN ExpectDen(ev, "poly", IF ev.fn = "sum" THEN DSumAxes(a, {ax}, FALSE) ELSE DProdAxes(a, {ax}, FALSE))
+\* result_type of dtype-carrying operands is numpy's promotion
+JResultType(ev, reg) ==
+  LET a == reg[ev.args[1]].v  b == reg[ev.args[2]].v
+  IN IF ev.out # "ret" THEN "raised" ELSE IF ev.dtype_name = Promote(a.dtype, b.dtype) THEN "ok" ELSE "dtype"
+\* logical functions look at whether an element is the zero polynomial
+IsNonZero(f) == f # EZero
+JLogical(ev, reg) ==
+  LET a == reg[ev.args[1]].d
+  IN IF ev.out # "ret" THEN "raised"
+     ELSE LET r == ev.res[1]
+              want == CASE ev.fn = "any" -> <<BoolNum(\E k \in 1..Len(a.el) : IsNonZero(a.el[k]))>>
+                        [] ev.fn = "all" -> <<BoolNum(\A k \in 1..Len(a.el) : IsNonZero(a.el[k]))>>
+                        [] ev.fn = "count_nonzero" -> <<NInt(Cardinality({k \in 1..Len(a.el) : IsNonZero(a.el[k])}))>>
+          IN IF r.kind # "array" THEN "type" ELSE IF r.vals # want THEN "value" ELSE "ok"
+
 \* -------------------------------------------------------------- C14 options
 OptAct(ev) == ev.act \in {"set_options", "enter", "exit", "exit_exc", "get_mutate", "get_defaults"}
 NextOpts(ev, opts, ctx) ==
@@ -621,7 +649,7 @@ JOption(ev, opts, ctx) ==
     [] ev.act = "get_defaults" -> IF ev.out = "ret" /\ ev.seen = DefaultOptions THEN "ok" ELSE "defaults"
 
 \* ------------------------------------------------------------------ dispatch
-NeedsDen(ev) == ev.act \in {"numdiv", "text", "copy", "saveload", "loadplain", "polydiv", "same", "copyto", "rebuild", "align", "arith", "unary", "move", "reduce", "call", "deriv", "compare", "extreme", "lead", "tonumpy", "todict", "decompose", "set_dimensions"}
+NeedsDen(ev) == ev.act \in {"from_roots", "apply_along_axis", "logical", "numdiv", "text", "copy", "saveload", "loadplain", "polydiv", "same", "copyto", "rebuild", "align", "arith", "unary", "move", "reduce", "call", "deriv", "compare", "extreme", "lead", "tonumpy", "todict", "decompose", "set_dimensions"}
 \* C20: where an exponent cannot be represented the only other allowed outcome is an error
 BigExponent == 55000
 Own(ev, reg, opts, ctx) ==
@@ -636,6 +664,10 @@ Own(ev, reg, opts, ctx) ==
     [] ev.act = "unary" -> JUnary(ev, reg)
     [] ev.act = "move" -> JMove(ev, reg, opts)
     [] ev.act = "reduce" -> JReduce(ev, reg)
+    [] ev.act = "from_roots" -> JFromRoots(ev, reg)
+    [] ev.act = "apply_along_axis" -> JApplyAlongAxis(ev, reg)
+    [] ev.act = "result_type" -> JResultType(ev, reg)
+    [] ev.act = "logical" -> JLogical(ev, reg)
     [] ev.act = "unsupported" -> JUnsupported(ev)
     [] ev.act = "constfn" -> JConst(ev, reg)
     [] ev.act = "numdiv" -> JNumericDivide(ev, reg)
